@@ -525,6 +525,20 @@ int main(int argc, char **argv)
 	if (argc < 2)
 		return 2;
 	setvbuf(stdout, NULL, _IOLBF, 0);
+	if (!strcmp(argv[1], "--comps")) {
+		/* the compressor back ends this build of the library can create (uncompress mode) */
+		int id;
+		for (id = SQFS_COMP_MIN; id <= SQFS_COMP_MAX; ++id) {
+			sqfs_compressor_config_t cfg;
+			sqfs_compressor_t *cmp = NULL;
+			if (sqfs_compressor_config_init(&cfg, id, 131072, SQFS_COMP_FLAG_UNCOMPRESS) == 0 &&
+			    sqfs_compressor_create(&cfg, &cmp) == 0) {
+				printf("%d\n", id);
+				sqfs_drop(cmp);
+			}
+		}
+		return 0;
+	}
 	if (open_image(argv[1]) == 0) {
 		if (!strcmp(mode, "all"))
 			ret = run_all();
